@@ -730,30 +730,52 @@ wait:
 		}
 		return "gone", 0, "", ""
 	}
-	st1, el1, site1, dump := snap()
-	time.Sleep(500 * time.Millisecond)
-	st2, el2, site2, _ := snap()
+	// up to 12 further looks, one second apart: the request may still finish (slow, not hung); three
+	// consecutive looks with a strictly growing stack of thousands of frames through the same
+	// function are unbounded recursion; three looks blocked are a hang.
+	var prevEl, grow, blocked int
+	var prevSite, dump string
+	for round := 0; round < 12; round++ {
+		select {
+		case o := <-ch:
+			return finish(o)
+		case <-time.After(time.Second):
+		}
+		st, el, site, d := snap()
+		if d != "" {
+			dump = d
+		}
+		switch {
+		case st == "gone":
+			continue
+		case st == "blocked":
+			blocked++
+			grow = 0
+		case el > 5000 && el > prevEl && (site == prevSite || prevSite == ""):
+			grow++
+			blocked = 0
+		default:
+			grow, blocked = 0, 0
+		}
+		prevEl, prevSite = el, site
+		if grow >= 3 || blocked >= 3 {
+			break
+		}
+	}
 	cancel()
-	// give the request the chance to end on the cancelled context, so that a runaway goroutine does not
-	// take the process down later
 	ended := false
 	select {
 	case <-ch:
 		ended = true
-	case <-time.After(10 * time.Second):
+	case <-time.After(2 * time.Second):
 	}
 	switch {
-	case st1 == "gone" || st2 == "gone":
-		if ended {
-			hx.Harnessf("request %q returned only after %s: too slow to judge, inconclusive", q, hangAfter)
-		}
-		hx.Harnessf("request %q has not returned after %s and its goroutine was not found", q, hangAfter)
-	case st1 == "blocked" && st2 == "blocked":
-		return hx.Result{}, hx.Failf("C08/hang/blocked/"+site1, "request %q has not returned after %s and its goroutine is blocked (ended after cancel: %v): %.3000s", q, hangAfter, ended, dump)
-	case el1 > 50000 && el2 > el1+1000 && site1 == site2:
-		return hx.Result{}, hx.Failf("C08/hang/unbounded-recursion/"+site1, "request %q has not returned after %s: its stack grows without bound through %s (%d, then %d frames elided; ended after cancel: %v): %.2000s", q, hangAfter, site1, el1, el2, ended, dump)
+	case blocked >= 3:
+		return hx.Result{}, hx.Failf("C08/hang/blocked/"+hx.PanicSite(dump), "request %q has not returned after %s and its goroutine is blocked (ended after cancel: %v): %.3000s", q, hangAfter, ended, dump)
+	case grow >= 3:
+		return hx.Result{}, hx.Failf("C08/hang/unbounded-recursion/"+prevSite, "request %q has not returned after %s: its stack grows without bound through %s (%d frames and growing; ended after cancel: %v): %.2000s", q, hangAfter, prevSite, prevEl, ended, dump)
 	}
-	hx.Harnessf("request %q still running after %s (not blocked, no runaway recursion; ended after cancel: %v): inconclusive\n%.3000s", q, hangAfter, ended, dump)
+	hx.Harnessf("request %q still running %d s after %s (not blocked, no runaway recursion; ended after cancel: %v): inconclusive\n%.3000s", q, 12, hangAfter, ended, dump)
 	return hx.Result{}, nil
 }
 
@@ -841,7 +863,7 @@ func TestC08Child(t *testing.T) {
 	if !ok {
 		t.Skip("child-process entry point")
 	}
-	hangAfter = time.Duration(hx.EnvInt("C08_CHILD_HANG_S", 4)) * time.Second
+	hangAfter = time.Duration(hx.EnvInt("C08_CHILD_HANG_S", 3)) * time.Second
 	debug.SetMaxStack(512 << 20)
 	fx := newFixture()
 	res, f := execGuarded(fx, q)
@@ -933,7 +955,7 @@ func runReq(c ReqCase) (*reqRun, *hx.Failure) {
 	if kind := fatalRisk(q); kind != "" {
 		// Requests of these shapes can end in a fatal stack overflow, which no recover() survives: they
 		// are executed alone in a child process. While the corresponding finding is listed as known,
-		// nine cases in ten (Avoid) are not executed at all, because each observation costs seconds.
+		// nineteen cases in twenty (Avoid) are not executed at all, because each observation costs seconds.
 		if c.Avoid && !c.Observe && rec.IsKnown(kind) {
 			r.class = "skipped(known-fatal-trigger)"
 			return r, nil
@@ -995,8 +1017,8 @@ func drawReq(t *rapid.T) ReqCase {
 	}
 	c.Muts = drawMuts(t)
 	// the hang at delete commits costs several seconds per observation: while it is listed as a known
-	// finding nine cases in ten stay away from it
-	c.Avoid = rapid.IntRange(0, 9).Draw(t, "avoid") != 0
+	// finding nineteen cases in twenty stay away from it
+	c.Avoid = rapid.IntRange(0, 19).Draw(t, "avoid") != 0
 	return c
 }
 
